@@ -304,7 +304,7 @@ func scenarios(thorough bool) []scenario {
 }
 
 func run(c *core.Ctx) {
-	bound := c.Pick(2, 3)
+	bound := c.Pick(2, 4)
 	horizon := 400
 	c.R.Rule = "case = (scenario: number of gated resolvers, resolvers observing ctx or not, gates opened, cancellation kind, entry point) x every schedule of caller / releaser / canceller / library execution goroutine with <= bound preemptions; non-trivial = a cancellation is part of the scenario; distinct by hash of (scenario, schedule)"
 	c.R.Assumptions = []string{"scheduling only at synchronisation operations is sound for data-race-free programs; races are reported by the detector in every explored schedule", "vsched models Go channel/select/mutex semantics", "Go race detector", "instrumenter rewrites preserve semantics"}
@@ -313,7 +313,7 @@ func run(c *core.Ctx) {
 	rl := sx.NewRaceLog()
 	if rl.Enabled() {
 		// race-detector pass: fewer schedules are needed (see cmd/verif: two passes)
-		bound = c.Pick(1, 2)
+		bound = c.Pick(1, 3)
 		c.R.Bounds["race_pass_preemptions"] = bound
 		delete(c.R.Bounds, "preemptions")
 	}
